@@ -1283,6 +1283,11 @@ func SelectExpr(query *Query, current Map, expr *sqlparser.SelectExprs, opts ...
 				if len(expr.As.String()) > 0 {
 					name = expr.As.String()
 				}
+				// the backward navigation marker is not a column name: a row that
+				// carried it could not be told from a row that is being navigated
+				if name == "<-" {
+					return nil, EXPECTATION_FAILED.Extend("`<-` is reserved for backward navigation. give the column an alias")
+				}
 				// Async functions return pointers
 				// It's a good idea to convert them back to value types
 				if valueRaw, ok := valueRaw.(*any); ok {
